@@ -27,11 +27,11 @@ def run(tier):
     # regression corpus: programs that once failed (their fix is recorded in known_findings.txt)
     import os
     regs = [("loop-alloca", "findings/C01-loop-alloca.pn", "exit=0 out=sum = 4498500\\n")]
-    rr = C.run_harness("exec", [(n, open(os.path.join(C.VERIF, f)).read()) for n, f, _ in regs], ck.work + "/regress", timeout=600)
-    for n, f, want in regs:
-        got = rr.get(n, ["missing"])
+    rr = C.run_harness("exec", [(rn, open(os.path.join(C.VERIF, f)).read()) for rn, f, _ in regs], ck.work + "/regress", timeout=600)
+    for rn, f, want in regs:
+        got = rr.get(rn, ["missing"])
         if len(got) < 2 or got[1] != want:
-            ck.violation("regression:" + n, "%s no longer behaves as its source prescribes: %s (expected %s)" % (f, got[:2], want), open(os.path.join(C.VERIF, f)).read())
+            ck.violation("regression:" + rn, "%s no longer behaves as its source prescribes: %s (expected %s)" % (f, got[:2], want), open(os.path.join(C.VERIF, f)).read())
     from .. import cfgstream
     ncfg, cstats, csizes, cbad = cfgstream.run(ck, 300 if tier == "quick" else 20000, ck.seed + 2)
     if not proof_ok:
